@@ -97,8 +97,8 @@ inductive SV where
   | empty
   | val (v : V)
   | ret (v : V)
-  | brk (target : String)
-  | cont (target : String)
+  | brk (target : String) (value : Option V)      -- result.go: the value the completion brings along (empty = none)
+  | cont (target : String) (value : Option V)
 
 /-- what a Go panic carries: an exception with a Value, or an ottoError not yet made an object -/
 inductive Thrown where
@@ -861,10 +861,23 @@ def consumes (labels : List String) (target : String) : Bool := labels.contains 
 
 /-- a step of a loop body (the `switch value.kind` inside the three loop evaluators) -/
 inductive Step where
-  | next (result : SV)          -- all statements done
-  | cont (result : SV)          -- resultContinue
-  | brk (result : SV)           -- resultBreak
-  | ret (v : SV)                -- resultReturn: the result value itself
+  | next (result : SV)                        -- all statements done
+  | cont (result : SV) (value : Option V)     -- resultContinue: the loop's value so far, the value the completion carries
+  | brk (result : SV) (value : Option V)      -- resultBreak
+  | ret (v : SV) (result : SV)                -- resultReturn: the result value itself, and the loop's value so far
+
+/-- result.go Value.carrying: a break / continue completion without a value takes the value produced so far -/
+def carrying (v : SV) (acc : SV) : SV :=
+  match v, acc with
+  | .brk t none, .val w => .brk t (some w)
+  | .cont t none, .val w => .cont t (some w)
+  | _, _ => v
+
+/-- result.go Value.carried: the value the completion brings along, or otherwise -/
+def carried (c : Option V) (otherwise : SV) : SV :=
+  match c with
+  | some w => .val w
+  | none => otherwise
 
 /-! ## entering code: declarations (no evaluation involved) -/
 
@@ -1024,6 +1037,7 @@ def evalE : Nat → FE → M MV
       else (match vl with
         | .ref fo => do let v ← constructObj n fo argumentList; pure (.val v)
         | _ => throwErr "TypeError")
+    | .fcc k => pure (.val (.str (String.singleton (Char.ofNat k))))                  -- builtin_string.go fromCharCode
     | .fnCtor f => do                                                                -- builtin_function.go:32 builtinNewFunctionNative
       let o ← newNodeFunction f globalStash                                              -- :49 … rt.globalStash
       pure (.val (.ref o))
@@ -1187,7 +1201,7 @@ def evalProgram : Nat → List String → FDecls → FSs → Bool → M V
   | n+1, vs, ds, body, eval => do
     functionDeclaration n ds eval
     variableDeclaration vs eval
-    let r ← evalList n body .undef
+    let r ← evalList n body .empty
     pure (match r with | .val v => v | .ret v => v | _ => .undef)
 termination_by structural n => n
 
@@ -1346,8 +1360,8 @@ def evalS : Nat → FS → M SV
       let fin ← (if hasFin then evalBlock n f else pure .empty)
       (match fin with
        | .ret v => pure (.ret v)
-       | .brk l => pure (.brk l)
-       | .cont l => pure (.cont l)
+       | .brk l c => pure (.brk l c)
+       | .cont l c => pure (.cont l c)
        | _ =>
          match r2 with
          | .error exc => throwVal exc
@@ -1387,10 +1401,20 @@ def evalS : Nat → FS → M SV
       modifySt fun σ => { σ with labels := σ.labels ++ [l] }
       let value ← deferM (evalS n s1) (fun σ => { σ with labels := σ.labels.dropLast })
       (match value with
-       | .brk t => if t = l then pure .empty else pure value
+       | .brk t c => if t = l then pure (carried c .empty) else pure value
        | _ => pure value)
-    | .brk l => pure (.brk (l.getD ""))                                                 -- :37
-    | .cont l => pure (.cont (l.getD ""))
+    | .switchS d cs => do                                                               -- :356 switch statement
+      let σ ← getSt
+      let labels := σ.labels ++ [""]
+      modifySt fun σ => { σ with labels := [] }
+      let discriminantResult ← resolve (← evalE n d)
+      let found ← switchSelect n discriminantResult cs 0
+      let target := match found with | some i => some i | none => defaultIdx cs 0      -- target := node.defaultIdx
+      (match target with
+       | none => pure .empty
+       | some t => switchRun n (dropCases cs t) labels .empty)
+    | .brk l => pure (.brk (l.getD "") none)                                            -- :37
+    | .cont l => pure (.cont (l.getD "") none)
 termination_by structural n => n
 
 /-- cmplEvaluateNodeForInStatement from the source expression on -/
@@ -1417,22 +1441,68 @@ def evalBlock : Nat → FSs → M SV
     let σ ← getSt
     let labels := σ.labels
     modifySt fun σ => { σ with labels := [] }
-    let value ← evalList n list .undef
+    let value ← evalList n list .empty
     match value with
-    | .brk t => if consumes labels t then pure .empty else pure value
+    | .brk t c => if consumes labels t then pure (carried c .empty) else pure value
     | _ => pure value
 termination_by structural n => n
 
-/-- cmpl_evaluate_statement.go:126 cmplEvaluateNodeStatementList: `var result Value` is undefined, not empty -/
-def evalList : Nat → FSs → V → M SV
+/-- cmpl_evaluate_statement.go:132 cmplEvaluateNodeStatementList: the value starts empty; an abrupt completion
+    takes the value so far along -/
+def evalList : Nat → FSs → SV → M SV
   | 0, _, _ => outOfFuel
-  | _+1, .nil, result => pure (.val result)
+  | _+1, .nil, result => pure result
   | n+1, .cons s r, result => do
     let value ← evalS n s
     match value with
     | .empty => evalList n r result
-    | .val v => evalList n r v
-    | _ => pure value
+    | .val v => evalList n r (.val v)
+    | _ => pure (carrying value result)
+termination_by structural n => n
+
+/-- :364–372: `calculateComparison(token.STRICT_EQUAL, discriminantResult, evaluate(test))` clause by clause -/
+def switchSelect : Nat → V → FCases → Nat → M (Option Nat)
+  | 0, _, _, _ => outOfFuel
+  | _+1, _, .nil, _ => pure none
+  | n+1, dv, .dflt _ r, i => switchSelect n dv r (i+1)
+  | n+1, dv, .case e _ r, i => do
+    let v ← resolve (← evalE n e)
+    match binSeq dv v with
+    | .bool true => pure (some i)
+    | _ => switchSelect n dv r (i+1)
+termination_by structural n => n
+
+/-- :377–392 the statements of one clause -/
+def switchStmts : Nat → FSs → List String → SV → M Step
+  | 0, _, _, _ => outOfFuel
+  | _+1, .nil, _, result => pure (.next result)
+  | n+1, .cons s r, labels, result => do
+    let value ← evalS n s
+    match value with
+    | .empty => switchStmts n r labels result
+    | .val v => switchStmts n r labels (.val v)
+    | .brk t c => if consumes labels t then pure (.brk result c) else pure (.ret value result)   -- evaluateBreak
+    | _ => pure (.ret value result)
+termination_by structural n => n
+
+/-- :375–395 `for _, clause := range node.body[target:]` -/
+def switchRun : Nat → FCases → List String → SV → M SV
+  | 0, _, _, _ => outOfFuel
+  | _+1, .nil, _, result => pure result
+  | n+1, .case _ b r, labels, result => do
+    let st ← switchStmts n b labels result
+    match st with
+    | .next acc => switchRun n r labels acc
+    | .brk acc c => pure (carried c acc)
+    | .ret v acc => pure (carrying v acc)
+    | .cont acc _ => pure acc
+  | n+1, .dflt b r, labels, result => do
+    let st ← switchStmts n b labels result
+    match st with
+    | .next acc => switchRun n r labels acc
+    | .brk acc c => pure (carried c acc)
+    | .ret v acc => pure (carrying v acc)
+    | .cont acc _ => pure acc
 termination_by structural n => n
 
 /-- the statements of a loop body, one by one (`for _, node := range body`) -/
@@ -1444,9 +1514,9 @@ def loopBody : Nat → FSs → List String → SV → M Step
     match value with
     | .empty => loopBody n r labels result
     | .val v => loopBody n r labels (.val v)
-    | .ret _ => pure (.ret value)
-    | .brk t => if consumes labels t then pure (.brk result) else pure (.ret value)
-    | .cont t => if consumes labels t then pure (.cont result) else pure (.ret value)
+    | .ret _ => pure (.ret value result)
+    | .brk t c => if consumes labels t then pure (.brk result c) else pure (.ret value result)
+    | .cont t c => if consumes labels t then pure (.cont result c) else pure (.ret value result)
 termination_by structural n => n
 
 /-- cmpl_evaluate_statement.go:418 cmplEvaluateModeWhileStatement -/
@@ -1459,9 +1529,9 @@ def evalWhile : Nat → FE → FSs → List String → SV → M SV
       let st ← loopBody n body labels result
       match st with
       | .next r => evalWhile n test body labels r
-      | .cont r => evalWhile n test body labels r
-      | .brk r => pure r
-      | .ret v => pure v
+      | .cont r c => evalWhile n test body labels (carried c r)
+      | .brk r c => pure (carried c r)
+      | .ret v r => pure (carrying v r)
 termination_by structural n => n
 
 /-- cmpl_evaluate_statement.go:208 `for obj != nil { … obj = obj.prototype … }` -/
@@ -1513,9 +1583,10 @@ def forInNames : Nat → String → FSs → List String → Nat → Bool → Nat
         rtPutValue into (.str name)
         let st ← loopBody n body labels ev
         match st with
-        | .ret v => pure (some v, (ev, visited'))                            -- result = value; obj = nil
-        | .brk ev' => pure (some (match ev' with | .empty => result | e => e), (ev', visited'))
-        | .cont ev' => forInNames n x body labels sourceObject keep obj rest result ev' visited'
+        | .ret v ev' =>                                                      -- obj = nil
+          pure (some (carrying v (match ev' with | .empty => result | e => e)), (ev', visited'))
+        | .brk ev' c => pure (some (carried c (match ev' with | .empty => result | e => e)), (ev', visited'))
+        | .cont ev' c => forInNames n x body labels sourceObject keep obj rest result (carried c ev') visited'
         | .next ev' => forInNames n x body labels sourceObject keep obj rest result ev' visited'
 termination_by structural n => n
 
